@@ -27,6 +27,7 @@ RULE = (
     'the source token; the written token is a fixpoint and survives inside a sheet. Integers of up to 25 digits are exact. '
     'Non-trivial: number with fraction and (leading-zero omission, sign or trailing zeros); colour in '
     'function form; text containing quote, parenthesis or white space; distinct by source literal.'
+    ' Every number literal is also written as an argument of calc(), f() and max(): value and unit (also of a zero length) must be kept.'
 )
 ASSUMPTIONS = [
     'exactness is asserted for literals with <= 15 significant digits (IEEE double) and <= 6 fraction digits',
